@@ -489,6 +489,9 @@ func RunC20(t *testing.T, spec kernel.Spec) *kernel.Outcome {
 		return out
 	}
 	out.Violations, out.Trace, out.StepIDs, out.Steps, out.Log = iso.Violations, iso.Trace, iso.StepIDs, iso.Steps, iso.Log
+	for k, v := range iso.Probes {
+		out.Probes[k] += v
+	}
 	out.Probe("isolation-programs")
 	// ---- race half (only meaningful in a -race build) ----
 	if raceEnabled && !spec.KeepSet {
